@@ -312,6 +312,7 @@ def run(ctx):
     ctx.check(not kl.calls("LogStream::enabled"), "kmsg-ignores-silencing:direct", "who-may-call", kl.loc(),
               "kmsgLog does not consult LogStream::enabled()", "kmsgLog consults the per-thread silencing flag")
 
+    kmsg_record_complete(ctx, "C17")
     # ---- PluginRet mapping
     krun = ctx.fn1("Oomd::BaseKillPlugin::run")
     fk = Flow(P, krun, cg=ctx.cg)
